@@ -549,9 +549,9 @@ theorem sciMatchChars_digits (ds : List Char) (h : ∀ c ∈ ds, isDigit c = tru
       · rename_i e; cases e; exact absurd hc (by decide)
       · rename_i e; cases e; exact absurd hc (by decide)
       · rfl
-  unfold sciMatchChars
+  unfold sciMatchChars sciMantissa
   simp only [hskip, htw, hdw]
-  cases ds <;> simp
+  cases ds <;> simp [sciExponent]
 
 theorem sciMatch_number (n : Nat) : sciMatch (toString n) = false := by
   unfold sciMatch
@@ -565,6 +565,217 @@ theorem sanitizeAtom_numberLabel (T : FloatTab) (i : Nat) : sanitizeAtom T (numb
   have := sciMatch_number (i + 1)
   simp only [sanitizeAtom, numberLabel, this]
   rfl
+
+/-! ### the scanner accepts exactly the strings that are a scientific-notation number in full -/
+
+/-- `[-+]?` -/
+def IsSign (cs : List Char) : Prop := cs = [] ∨ cs = ['+'] ∨ cs = ['-']
+
+/-- `[0-9]*` -/
+def AllDigits (cs : List Char) : Prop := ∀ c ∈ cs, isDigit c = true
+
+instance (cs : List Char) : Decidable (AllDigits cs) := by unfold AllDigits; infer_instance
+
+/-- the language of `[-+]?[0-9]*\.?[0-9]+([eE][-+]?[0-9]+)`, i.e. the strings `fullmatch` accepts: sign, integer
+    digits, fraction (nothing — then there is an integer digit — or a dot and at least one digit), the exponent
+    letter, sign, at least one exponent digit, and nothing else -/
+def SciNumber (cs : List Char) : Prop :=
+  ∃ sg ip fp e sg' ed, cs = sg ++ (ip ++ (fp ++ e :: (sg' ++ ed))) ∧ IsSign sg ∧ AllDigits ip ∧
+    ((fp = [] ∧ ip ≠ []) ∨ ∃ fd, fp = '.' :: fd ∧ fd ≠ [] ∧ AllDigits fd) ∧
+    (e = 'e' ∨ e = 'E') ∧ IsSign sg' ∧ ed ≠ [] ∧ AllDigits ed
+
+/-- the head of a list is not a digit (or there is none) -/
+def StopsDigits (b : List Char) : Prop := ∀ c ∈ b.head?, isDigit c = false
+
+theorem span_digits (a b : List Char) (ha : AllDigits a) (hb : StopsDigits b) :
+    (a ++ b).takeWhile isDigit = a ∧ (a ++ b).dropWhile isDigit = b := by
+  induction a with
+  | nil =>
+    cases b with
+    | nil => exact ⟨rfl, rfl⟩
+    | cons c rest =>
+      have hc : isDigit c = false := hb c (by simp)
+      simp [hc]
+  | cons x xs ih =>
+    have hx : isDigit x = true := ha x (by simp)
+    obtain ⟨h1, h2⟩ := ih (fun c hc => ha c (by simp [hc]))
+    simp [List.takeWhile_cons, List.dropWhile_cons, hx, h1, h2]
+
+theorem skipSign_decomp (cs : List Char) : ∃ sg, IsSign sg ∧ cs = sg ++ skipSign cs := by
+  unfold skipSign
+  split
+  · exact ⟨['+'], Or.inr (Or.inl rfl), rfl⟩
+  · exact ⟨['-'], Or.inr (Or.inr rfl), rfl⟩
+  · exact ⟨[], Or.inl rfl, rfl⟩
+
+/-- the head of a list is not a sign (or there is none) -/
+def StopsSign (b : List Char) : Prop := ∀ c ∈ b.head?, c ≠ '+' ∧ c ≠ '-'
+
+theorem skipSign_sign (sg rest : List Char) (h : IsSign sg) (hr : StopsSign rest) : skipSign (sg ++ rest) = rest := by
+  rcases h with rfl | rfl | rfl
+  · cases rest with
+    | nil => rfl
+    | cons c r =>
+      obtain ⟨h1, h2⟩ := hr c (by simp)
+      simp only [List.nil_append]
+      unfold skipSign
+      split
+      · rename_i e; cases e; exact absurd rfl h1
+      · rename_i e; cases e; exact absurd rfl h2
+      · rfl
+  · rfl
+  · rfl
+
+theorem allDigits_takeWhile (cs : List Char) : AllDigits (cs.takeWhile isDigit) := by
+  induction cs with
+  | nil => intro c hc; cases hc
+  | cons x xs ih =>
+    intro c hc
+    by_cases hx : isDigit x = true
+    · simp only [List.takeWhile_cons, hx, if_true, List.mem_cons] at hc
+      rcases hc with rfl | hc
+      · exact hx
+      · exact ih c hc
+    · simp [List.takeWhile_cons, hx] at hc
+
+theorem span_self (cs : List Char) :
+    cs = cs.takeWhile isDigit ++ cs.dropWhile isDigit ∧ AllDigits (cs.takeWhile isDigit) :=
+  ⟨(List.takeWhile_append_dropWhile).symm, allDigits_takeWhile cs⟩
+
+/-- the mantissa: integer digits and the fraction (nothing — then there is an integer digit — or a dot and digits) -/
+def IsMantissa (ip fp : List Char) : Prop :=
+  AllDigits ip ∧ ((fp = [] ∧ ip ≠ []) ∨ ∃ fd, fp = '.' :: fd ∧ fd ≠ [] ∧ AllDigits fd)
+
+/-- the exponent: the letter, a sign, at least one digit -/
+def IsExponent (cs : List Char) : Prop :=
+  ∃ e sg' ed, cs = e :: (sg' ++ ed) ∧ (e = 'e' ∨ e = 'E') ∧ IsSign sg' ∧ ed ≠ [] ∧ AllDigits ed
+
+theorem sciMantissa_sound (cs rest : List Char) (h : sciMantissa cs = some rest) :
+    ∃ ip fp, cs = ip ++ (fp ++ rest) ∧ IsMantissa ip fp := by
+  obtain ⟨h1, hd1⟩ := span_self cs
+  unfold sciMantissa at h
+  simp only [] at h
+  split at h
+  · rename_i r2 hr1
+    split at h
+    · cases h
+    · rename_i hd2
+      cases h
+      obtain ⟨h2, hdd2⟩ := span_self r2
+      refine ⟨cs.takeWhile isDigit, '.' :: r2.takeWhile isDigit, ?_, hd1, Or.inr ⟨_, rfl, by simpa using hd2, hdd2⟩⟩
+      rw [List.cons_append, ← h2, ← hr1, ← h1]
+  · split at h
+    · cases h
+    · rename_i hne
+      cases h
+      exact ⟨cs.takeWhile isDigit, [], by rw [List.nil_append, ← h1], hd1, Or.inl ⟨rfl, by simpa using hne⟩⟩
+
+theorem sciExponent_sound (cs : List Char) (h : sciExponent cs = true) : IsExponent cs := by
+  cases cs with
+  | nil => simp [sciExponent] at h
+  | cons e r3 =>
+    simp only [sciExponent] at h
+    split at h
+    · rename_i he
+      obtain ⟨sg', hsg', hr3⟩ := skipSign_decomp r3
+      obtain ⟨h4, hd4⟩ := span_self (skipSign r3)
+      simp only [Bool.and_eq_true, Bool.not_eq_true', List.isEmpty_eq_false_iff, List.isEmpty_iff] at h
+      refine ⟨e, sg', (skipSign r3).takeWhile isDigit, ?_, by simpa using he, hsg', h.1, hd4⟩
+      rw [h.2, List.append_nil] at h4
+      rw [← h4, ← hr3]
+    · cases h
+
+theorem isExponent_stops {cs : List Char} (h : IsExponent cs) : StopsDigits cs ∧ StopsSign cs ∧ cs.head? ≠ some '.' := by
+  obtain ⟨e, _, _, rfl, he, _⟩ := h
+  rcases he with rfl | rfl
+  · exact ⟨fun c hc => by simp at hc; subst hc; decide, fun c hc => by simp at hc; subst hc; decide, by simp⟩
+  · exact ⟨fun c hc => by simp at hc; subst hc; decide, fun c hc => by simp at hc; subst hc; decide, by simp⟩
+
+theorem sciExponent_complete (cs : List Char) (h : IsExponent cs) : sciExponent cs = true := by
+  obtain ⟨e, sg', ed, rfl, he, hsg', hed, hded⟩ := h
+  have hstop : StopsSign ed := by
+    intro c hc
+    cases ed with
+    | nil => cases hc
+    | cons d rest =>
+      simp at hc; subst hc
+      have := hded d (by simp)
+      constructor <;> (intro hcc; subst hcc; revert this; decide)
+  have hskip : skipSign (sg' ++ ed) = ed := skipSign_sign sg' ed hsg' hstop
+  obtain ⟨ht, hd⟩ := span_digits ed [] hded (fun c hc => by cases hc)
+  rw [List.append_nil] at ht hd
+  simp only [sciExponent, hskip, ht, hd]
+  rcases he with rfl | rfl <;> simp [hed]
+
+theorem sciMantissa_complete (ip fp rest : List Char) (h : IsMantissa ip fp) (hs : StopsDigits rest)
+    (hdot : rest.head? ≠ some '.') : sciMantissa (ip ++ (fp ++ rest)) = some rest := by
+  obtain ⟨hip, hfp⟩ := h
+  rcases hfp with ⟨rfl, hne⟩ | ⟨fd, rfl, hfd, hdfd⟩
+  · obtain ⟨ht, hd⟩ := span_digits ip rest hip hs
+    simp only [sciMantissa, List.nil_append, ht, hd]
+    split
+    · exact absurd rfl hdot
+    · simp [hne]
+  · have hs' : StopsDigits ('.' :: (fd ++ rest)) := fun c hc => by simp at hc; subst hc; decide
+    obtain ⟨ht, hd⟩ := span_digits ip ('.' :: (fd ++ rest)) hip hs'
+    obtain ⟨ht2, hd2⟩ := span_digits fd rest hdfd hs
+    simp only [List.cons_append]
+    simp only [sciMantissa, ht, hd, ht2, hd2]
+    simp [hfd]
+
+/-- **the scanner is `fullmatch`**: it accepts exactly the strings of the language of the pattern -/
+theorem sciMatchChars_iff (cs : List Char) : sciMatchChars cs = true ↔ SciNumber cs := by
+  constructor
+  · intro h
+    obtain ⟨sg, hsg, hcs⟩ := skipSign_decomp cs
+    unfold sciMatchChars at h
+    split at h
+    · cases h
+    · rename_i r hm
+      obtain ⟨ip, fp, hmant, hM⟩ := sciMantissa_sound _ _ hm
+      obtain ⟨e, sg', ed, rfl, he, hsg', hed, hded⟩ := sciExponent_sound r h
+      exact ⟨sg, ip, fp, e, sg', ed, by rw [← hmant, ← hcs], hsg, hM.1, hM.2, he, hsg', hed, hded⟩
+  · rintro ⟨sg, ip, fp, e, sg', ed, rfl, hsg, hip, hfp, he, hsg', hed, hded⟩
+    have hE : IsExponent (e :: (sg' ++ ed)) := ⟨e, sg', ed, rfl, he, hsg', hed, hded⟩
+    obtain ⟨hsd, hss, hdot⟩ := isExponent_stops hE
+    have hstop : StopsSign (ip ++ (fp ++ e :: (sg' ++ ed))) := by
+      intro c hc
+      cases ip with
+      | cons d rest =>
+        simp at hc; subst hc
+        have := hip d (by simp)
+        constructor <;> (intro hcc; subst hcc; revert this; decide)
+      | nil =>
+        rcases hfp with ⟨rfl, hne⟩ | ⟨fd, rfl, _, _⟩
+        · exact absurd rfl hne
+        · simp at hc; subst hc; decide
+    unfold sciMatchChars
+    rw [skipSign_sign sg _ hsg hstop, sciMantissa_complete ip fp _ ⟨hip, hfp⟩ hsd hdot]
+    exact sciExponent_complete _ hE
+
+theorem sciNumber_getLast {cs : List Char} (h : SciNumber cs) : ∃ d, cs.getLast? = some d ∧ isDigit d = true := by
+  obtain ⟨sg, ip, fp, e, sg', ed, rfl, _, _, _, _, _, hed, hded⟩ := h
+  refine ⟨ed.getLast hed, ?_, hded _ (List.getLast_mem hed)⟩
+  have : ed.getLast? = some (ed.getLast hed) := List.getLast?_eq_getLast hed
+  simp [List.getLast?_append, List.getLast?_cons, this]
+
+theorem sciMatch_iff (s : String) : sciMatch s = true ↔ SciNumber s.toList := sciMatchChars_iff s.toList
+
+theorem sanitizeAtom_kept (T : FloatTab) (s : String) (h : ¬ SciNumber s.toList) :
+    sanitizeAtom T (.cell (.str s)) = .ok (.cell (.str s)) := by
+  have : sciMatch s = false := by
+    cases hm : sciMatch s with
+    | false => rfl
+    | true => exact absurd ((sciMatch_iff s).mp hm) h
+  simp [sanitizeAtom, this]
+
+theorem sanitizeAtom_converted (T : FloatTab) (s : String) (h : SciNumber s.toList) :
+    (∀ x, T s = some (some x) → sanitizeAtom T (.cell (.str s)) = .ok (.cell (.flt x))) ∧
+    (T s = some none → sanitizeAtom T (.cell (.str s)) = .error (.floatError s)) := by
+  have : sciMatch s = true := (sciMatch_iff s).mpr h
+  constructor
+  · intro x hx; simp [sanitizeAtom, this, hx]
+  · intro hx; simp [sanitizeAtom, this, hx]
 
 
 /-! ### flatten: labels are paths -/
